@@ -22,8 +22,8 @@ rm -f "$WT/$DIR/zz_seed_demo_test.go"
 ./baseline.sh "$WT" | head -3 >> "$E"
 for p in C01 C02 C03 C04 C05 C06 C07 C08 C09 C10 C11 C12 C13 C14 C15 C16 C17 C18 C19 C20; do
   res=$(./run.sh check -p $p -repo "$WT" -evidence "$WT/.ev.json" 2>&1)
-  if echo "$res" | grep -q '^VIOLATION'; then
-    echo "check $p: VIOLATION $(echo "$res" | grep -E '^(VIOLATED|UNDECIDED)' | grep -v 'C11.2 freshness-age-fabricated' | awk '{print $2}' | sort -u | tr '\n' ' ')" >> "$E"
+  if printf "%s\n" "$res" | grep -q '^VIOLATION'; then
+    echo "check $p: VIOLATION $(printf "%s\n" "$res" | grep -E '^(VIOLATED|UNDECIDED)' | grep -v 'C11.2 freshness-age-fabricated' | awk '{print $2}' | sort -u | tr '\n' ' ')" >> "$E"
   fi
 done
 grep -q "^check $PROP: VIOLATION" "$E" && echo "target-property $PROP: DETECTED" >> "$E" || echo "target-property $PROP: MISSED" >> "$E"
